@@ -34,7 +34,7 @@ def build(seed):
     u = U.generate(rng, profile(rng))
     prng = subseed(seed, 'plan')
     swarm = {'routes': prng.random() < 0.6, 'batch': prng.random() < 0.3, 'short_reads': False,
-             'external': prng.random() < 0.1}
+             'external': prng.random() < 0.1, 'style': prng.random() < 0.5}
     plan = [op for op in P.history(prng, u, prng.randint(4, 9), swarm)
             if op['op'] != 'checkpoint']
     if prng.random() < 0.3:
